@@ -24,7 +24,11 @@ type pendingLin struct {
 }
 
 type execResult struct {
-	pending   []pendingLin
+	// incomplete: the execution could not be driven to its end (engine R:
+	// a thread neither parked nor blocked within the deadline); the run is
+	// then not exhaustive
+	incomplete string
+	pending    []pendingLin
 	trace     schedTrace
 	aborted   string
 	outcome   string // canonical observation vector of the execution
@@ -131,6 +135,13 @@ func (e *Explorer) explore(prefix []int, parent []decision, depth int) {
 		return
 	}
 	record := mine
+	if x != nil && x.incomplete != "" {
+		e.c.count("incomplete_executions", 1)
+		if e.c.res.Exhaustive {
+			e.c.res.Exhaustive = false
+			e.c.res.CapsHit = append(e.c.res.CapsHit, "an execution could not be completed: "+x.incomplete)
+		}
+	}
 	if record {
 		e.execs++
 		e.c.res.Evaluations++
